@@ -58,6 +58,15 @@ func BurnN(cur realm, n int) {
 	x = x + s - s
 }
 func Get(name string) int { return get(name) }
+
+var blob string
+
+func Grow(cur realm, n int) {
+	for i := 0; i < n; i++ {
+		blob += "x"
+	}
+}
+func BlobLen() int { return len(blob) }
 `
 
 const privPath = "gno.land/r/verif/priv"
@@ -230,6 +239,11 @@ func (w *world) project() map[string]any {
 		mbt.Die("qeval priv: %v", err)
 	}
 	rv["pv"] = parseQInt(pvs)
+	bls, err := w.e.QEval(atomPath, "BlobLen()")
+	if err != nil {
+		mbt.Die("qeval blob: %v", err)
+	}
+	rv["blob"] = parseQInt(bls)
 	return map[string]any{"bal": bal, "seq": seq, "rv": rv}
 }
 
@@ -254,6 +268,12 @@ func (w *world) buildTx(t *txSpec) std.Tx {
 			msgs = append(msgs, vm.NewMsgCall(signer.Addr, nil, atomPath, "BurnN", []string{fmt.Sprint(m.n)}))
 		case "redeploy":
 			msgs = append(msgs, privMsg(signer.Addr, m.Val))
+		case "grow":
+			msgs = append(msgs, vm.NewMsgCall(signer.Addr, nil, atomPath, "Grow", []string{fmt.Sprint(m.Val)}))
+		case "growfail": // same call, but the message allows at most 1ugnot of storage deposit
+			mc := vm.NewMsgCall(signer.Addr, nil, atomPath, "Grow", []string{fmt.Sprint(m.Val)})
+			mc.MaxDeposit = std.Coins{{Denom: "ugnot", Amount: 1}}
+			msgs = append(msgs, mc)
 		default:
 			panic("kind " + m.Kind)
 		}
@@ -285,7 +305,9 @@ func locOf(log string) string {
 	return "tx"
 }
 
-func isVM(k string) bool { return k == "set" || k == "inc" || k == "setpay" || k == "redeploy" }
+func isVM(k string) bool {
+	return k == "set" || k == "inc" || k == "setpay" || k == "redeploy" || k == "grow"
+}
 
 // block = list of txs delivered in one block; returns false when the scenario must be resynchronised
 func (w *world) runBlock(txs []*txSpec, nextSeq map[string]int64) {
@@ -400,8 +422,14 @@ func (w *world) randMsg(signer string) msgSpec {
 		if w.rng.Intn(10) == 0 {
 			m.Amt = 2_000_000_000
 		}
-	case p < 94:
+	case p < 91:
 		m.Kind = "burn"
+	case p < 94:
+		m.Kind = "grow"
+		m.Val = int64(20 + w.rng.Intn(200))
+		if w.rng.Intn(2) == 0 {
+			m.Kind = "growfail"
+		}
 	default:
 		m.Kind = "burnn"
 		m.n = int64(100 + w.rng.Intn(1500))
